@@ -78,6 +78,9 @@ fn main() {
         Some("batchfail") => {
             let mut report = util::Report::new("debug", "quick", "model_checking");
             props::batchfail::run(&["C05", "C08", "C09", "C02", "C03"], args.get(2).is_some_and(|x| x == "thorough"), &mut report);
+            props::batchfail::run_large_family(&["C05", "C08", "C02", "C03"], args.get(2).is_some_and(|x| x == "thorough"), &mut report);
+            props::batchfail::run_close_on_failing_device(&mut report);
+            println!("{}", serde_json::to_string(&report.coverage["large_extent_retirement_family"]).unwrap_or_default());
             println!("{}", serde_json::to_string(&report.coverage["failed_batch_family"]).unwrap_or_default());
             for v in report.violations.iter().take(6) {
                 println!("VIOLATION {}", v.detail.chars().take(400).collect::<String>());
